@@ -17,6 +17,12 @@
 package cron
 
 import (
+	"fmt"
+	"regexp"
+	"strconv"
+	"strings"
+	"time"
+
 	"github.com/furiko-io/cronexpr"
 	"k8s.io/utils/pointer"
 
@@ -70,5 +76,78 @@ func (p *Parser) Parse(cronLine string, hashID string) (*cronexpr.Expression, er
 		opts = newOpts
 	}
 
+	if err := validateHashRanges(p.Format, cronLine); err != nil {
+		return nil, err
+	}
+
 	return cronexpr.ParseForFormat(p.Format, cronLine, opts...)
+}
+
+// hashRangeRegexp matches a hashed range like H(5-20).
+var hashRangeRegexp = regexp.MustCompile(`^h\(([a-z0-9]+)-([a-z0-9]+)\)$`)
+
+// validateHashRanges rejects hashed ranges whose beginning is beyond their end,
+// like H(20-5). cronexpr rejects the plain range 20-5 but not the hashed one,
+// whose value is then computed modulo a zero or negative range size: parsing
+// panics, or yields a value outside of the field for which Next never returns.
+func validateHashRanges(format cronexpr.CronFormat, cronLine string) error {
+	fields := strings.Fields(cronLine)
+	if len(fields) > 7 {
+		fields = fields[:7]
+	}
+
+	// The month and day of week fields are preceded by an optional seconds field.
+	monthIndex := 3
+	if len(fields) == 7 {
+		monthIndex = 4
+	}
+
+	for i, field := range fields {
+		for _, item := range strings.Split(field, ",") {
+			matches := hashRangeRegexp.FindStringSubmatch(strings.ToLower(item))
+			if matches == nil {
+				continue
+			}
+			first, ok1 := parseFieldValue(format, i-monthIndex, matches[1])
+			last, ok2 := parseFieldValue(format, i-monthIndex, matches[2])
+			if ok1 && ok2 && first > last {
+				return fmt.Errorf("beginning of range (%d) beyond end of range (%d): %s", first, last, item)
+			}
+		}
+	}
+
+	return nil
+}
+
+// parseFieldValue returns the numeric value of a single value in a cron field in
+// the same way as cronexpr. The field is the month if pos is 0, and the day of
+// week if pos is 1. Values that cannot be understood are left to cronexpr.
+func parseFieldValue(format cronexpr.CronFormat, pos int, value string) (int, bool) {
+	isMonth, isDow := pos == 0, pos == 1
+	if n, err := strconv.Atoi(value); err == nil {
+		switch {
+		case isDow && format == cronexpr.CronFormatQuartz:
+			// SUN-SAT is 1-7.
+			n--
+		case isDow:
+			// Sunday is both 0 and 7.
+			n %= 7
+		}
+		return n, true
+	}
+	if isMonth {
+		for m := time.January; m <= time.December; m++ {
+			if name := strings.ToLower(m.String()); value == name || value == name[:3] {
+				return int(m), true
+			}
+		}
+	}
+	if isDow {
+		for d := time.Sunday; d <= time.Saturday; d++ {
+			if name := strings.ToLower(d.String()); value == name || value == name[:3] {
+				return int(d), true
+			}
+		}
+	}
+	return 0, false
 }
